@@ -79,10 +79,12 @@ all), and every quick check was run on the unchanged tree with several `VERIF_SE
   readers' use of `propagateSRTAttributes`, `propagateWebVTTAttributes`, `propagateTTMLAttributes`,
   `propagateSTLAttributes` and what the five writers emit from the result (emphasis flags and tag stacks, the
   SubRip / TTML colour and the five WebVTT colour classes, cue alignment / line / position, STL justification, row
-  with its teletext clamp and the row-to-line-percentage rule). The deliberate deviations of the code are named in
+  with its teletext clamp and the row-to-line-percentage rule; a line's voice name, which lives in WebVTT and
+  SubStation Alpha only; the format-neutral metadata Title / Language / Framerate / TTMLCopyright with the
+  defaults `newGSIBlock` fills in). The deliberate deviations of the code are named in
   the module header (WebVTT -> SubRip loses emphasis because no reader sets `WebVTTBold`; TTML -> SubRip loses the
   colour while SubRip -> TTML keeps it; `{\\anN}` stays text; `WriteToSTL` justifies left at row 20 whatever the other
-  formats said). `StylePropMC` checks on all 4,925 (source, destination, look) triples that a written file is a
+  formats said; `WriteToTTML` writes no `ttp:frameRate`). `StylePropMC` checks on all 5,950 (source, destination, look) triples that a written file is a
   fixpoint of read-write, that a same-format conversion keeps the look, and the survival / loss table. `drive
   styleprop` performs every one of those conversions on the real code; `TraceStyleProp` turns failure, a lost cue,
   changed text or changed times into C07 verdicts, and a look that differs from `Read[g](Write[g](Read[f](x)))`
